@@ -90,3 +90,6 @@ def case(ctx, i, tier):
     discrete = i % 8 == 3
     cfg, outs = epl.ledger_episode(ctx, {"C07"}, chain=chain, discrete=discrete)
     ctx.nontrivial = len(outs) >= 3 and ctx.evals.get("C07:commission", 0) > 0
+    if i % 4 == 0 and not chain:
+        # the track record of a second episode on the same environment starts afresh
+        epl.ledger_episode(ctx, {"C07"}, prebuilt=cfg["_prebuilt"])
